@@ -22,6 +22,9 @@ type Job struct {
 	MaxDec   int  // bound on decisions per path (default 2000)
 	MapOrder bool // explore Go map iteration orders as choice points
 	NoAtoms  bool // execute number formatting digit by digit instead of atoms
+	// HangLabel: a path that exhausts MaxSteps (or the call depth) is reported under this label as a
+	// non-termination candidate; it counts only if the native replay does not finish either.
+	HangLabel string
 }
 
 func (j Job) ID() string { return j.Pkg + "." + j.Func + "(" + strings.Join(j.Args, ",") + ")" }
@@ -387,6 +390,12 @@ func (r *Runner) runPath(x *Exec, it workItem, setups map[string]bool) {
 				out.end = e.reason
 				if strings.HasPrefix(e.reason, "unsupported") {
 					out.end += " @" + x.where()
+				}
+				if job.HangLabel != "" && (e.reason == "bound-exceeded: steps" || e.reason == "bound-exceeded: call depth") && !x.replaying() {
+					if rs, m := x.solver.Check(x.pc, x.tt.tru, x.symVars); rs == 1 {
+						x.recordViolation(job.HangLabel, true, m)
+						out.end = "non-termination candidate (" + e.reason + ")"
+					}
 				}
 			case atomMismatch:
 				out.end = "unsupported: atom compared with bytes"
